@@ -3,7 +3,10 @@
 Part A (histories): generated data trees (<=6 files, 2 directories + root, 2 tasks) x file selections; a backup is created
 (BackupManager.create_backup or run_remodel_backup.main), then every sequence (<=3) over
 {modify, delete_file, delete_dir, remodel, restore_all, restore[A], restore[B]} is applied to a fresh copy and the tree is
-compared with a byte-level model after every step.
+compared with a byte-level model after every step.  The trees include ones whose directory AND file names carry upper-case
+letters (Sub-01/EEG/..., _Events.TSV), mixed case over three levels (sUb-03/Ses-X/eEg), an upper-case file in the root and - on a
+case-sensitive file system (probed first) - names that differ only in letter case side by side (Sub-09 / sub-09 / SUB-09, eeg / EEG,
+k_... / K_... in one directory): restore means byte identity at the ORIGINAL paths and no file anywhere else.
 Part B (crash points): a dry run records the file-system calls of create_backup (os.makedirs, shutil.copy2, open, json.dump);
 an interruption is injected before / after each of them, and inside each copy and inside the dump (truncated destination);
 afterwards a NEW BackupManager must not list the backup (or raise) unless every recorded file is present and complete.
@@ -34,6 +37,28 @@ UNIVERSE = {
 }
 FILES = list(UNIVERSE)
 HYPHEN = "sub2/sub2_task-B_run-1_events.tsv"
+
+# Part A', letter case: directory and file names with upper-case letters, mixed case, and (on a case-sensitive file system)
+# names that differ only in letter case side by side.  A backup is restored to the ORIGINAL paths, whatever their spelling.
+CASE_UNIVERSE = {
+    "Sub-01/EEG/Sub-01_task_A_events.tsv": b"onset\tduration\tx\ty\r\n1.0\t0.5\ta\t1\r\n2.0\t0.5\tb\t2\r\n",
+    "Sub-01/EEG/Sub-01_task_B_Events.TSV": b"x\ty\nb\t7\na\t8\nb\tn/a\n",               # upper case in suffix and extension
+    "Sub-01/Sub-01_task_A_Scans.BIN": b"\x00\x01UPPER\r\n" + bytes(range(200, 230)),      # not a table
+    "sub-02/eeg/sub-02_task_B_events.tsv": b"x\ty\na\t3\nb\t4\n",                        # all lower case, next to the others
+    "sUb-03/Ses-X/eEg/sUb-03_task_A_events.tsv": b"x\ty\nb\t5\nb\t6",                     # mixed case, three levels
+    "TOP_task_A_events.tsv": b"x\ty\nb\t9\n",                                            # upper case, directly in the root
+    # names that differ only in letter case (directories at both levels, and two files in one directory)
+    "Sub-09/eeg/k_task_A_events.tsv": b"x\ty\nb\tSub-09/eeg\n",
+    "sub-09/eeg/k_task_A_events.tsv": b"x\ty\nb\tsub-09/eeg\na\t0\n",
+    "sub-09/EEG/k_task_A_events.tsv": b"x\ty\nb\tsub-09/EEG\n",
+    "sub-09/eeg/K_task_A_events.tsv": b"x\ty\nb\tsub-09/eeg/K\n",
+    "sub-09/eeg/k_task_B_events.tsv": b"x\ty\na\t1\nb\ttask B\n",
+    "SUB-09/k_task_B_notes.txt": b"SUB-09 notes\n",
+}
+UNIVERSE.update(CASE_UNIVERSE)
+CASE_TREE_UPPER = list(CASE_UNIVERSE)[:6]
+CASE_TREE_UPPER_SMALL = ["Sub-01/EEG/Sub-01_task_A_events.tsv", "Sub-01/Sub-01_task_A_Scans.BIN", "sub-02/eeg/sub-02_task_B_events.tsv"]
+CASE_TREE_COLLIDE = list(CASE_UNIVERSE)[6:]
 
 OPS = [{"operation": "remove_rows", "description": "d", "parameters": {"column_name": "x", "remove_values": ["a"]}},
        {"operation": "rename_columns", "description": "d", "parameters": {"column_mapping": {"y": "yy"}, "ignore_missing": True}}]
@@ -154,6 +179,24 @@ def oracle_remodel(orig_bytes):
 # ------------------------------------------------------------------------------------------------------------
 
 
+def first_dir(state):
+    """the first (in code-point order) top-level directory that holds a file; spelled exactly as on disk"""
+    tops = sorted({f.split("/")[0] for f in state if "/" in f})
+    return tops[0] if tops else None
+
+
+def fs_is_case_sensitive():
+    d = tempfile.mkdtemp(prefix="c18cs_")
+    try:
+        for n in ("Aa", "aa"):
+            os.makedirs(os.path.join(d, n))
+        return sorted(os.listdir(d)) == ["Aa", "aa"]
+    except OSError:
+        return False
+    finally:
+        shutil.rmtree(d, ignore_errors=True)
+
+
 def apply_model(state, orig, backed, action, ref):
     """byte-level model of one action. returns (expected_state, wildcard_paths)"""
     st = dict(state)
@@ -166,8 +209,8 @@ def apply_model(state, orig, backed, action, ref):
         if st:
             del st[sorted(st)[0]]
     elif action == "delete_dir":
-        d = "sub1/" if any(f.startswith("sub1/") for f in st) else "sub2/"
-        for f in [f for f in st if f.startswith(d)]:
+        d = first_dir(st)
+        for f in [f for f in st if d and f.startswith(d + "/")]:
             del st[f]
     elif action == "restore_all":
         for f in backed:
@@ -201,9 +244,9 @@ def real_action(root, action, model, via_cli):
         if st:
             os.remove(os.path.join(root, sorted(st)[0]))
     elif action == "delete_dir":
-        st = read_state(root)
-        d = "sub1" if any(f.startswith("sub1/") for f in st) else "sub2"
-        shutil.rmtree(os.path.join(root, d), ignore_errors=True)
+        d = first_dir(read_state(root))
+        if d:
+            shutil.rmtree(os.path.join(root, d), ignore_errors=True)
     elif action == "restore_all":
         do_restore(root, [], via_cli)
     elif action == "restore_A":
@@ -252,7 +295,10 @@ def eval_history_group(job):
                                {"returned": ok, "recorded": sorted(rec) if rec else rec, "files": sorted(got_b)},
                                {"returned": True, "recorded": sorted(backed)}))
         if fails0:
-            return [(json.dumps(inp0), True, fails0)]
+            out.append((json.dumps(inp0), True, fails0))
+            if not (ok and rec):
+                return out
+            fails0 = []     # a backup exists whose record or layout is not the documented one: the histories still have to hold
         backup0 = read_backup(tmpl, NAME)
         # reference result of the remodeler on the pristine tree
         ref = {}
@@ -580,12 +626,21 @@ def eval_job(job):
 # ------------------------------------------------------------------------------------------------------------
 
 
+def case_trees():
+    out = [CASE_TREE_UPPER, CASE_TREE_UPPER_SMALL]
+    if fs_is_case_sensitive():
+        out.append(CASE_TREE_COLLIDE)
+        out.append(["Sub-09/eeg/k_task_A_events.tsv", "sub-09/eeg/k_task_A_events.tsv"])
+    return out
+
+
 def trees(w):
     full = list(FILES)
     fixed = [full,
              ["sub1/sub1_task_A_events.tsv", "sub2/sub2_task_A_events.tsv", HYPHEN],
              ["top_task_B_events.tsv"],
              ["sub1/sub1_task_B_events.tsv", HYPHEN, "sub2/notes_task_A.bin", "top_task_B_events.tsv"]]
+    fixed += case_trees()
     if w.quick:
         return fixed
     allsub = [[f for f, b in zip(FILES, bits) if b] for bits in itertools.product((0, 1), repeat=len(FILES)) if any(bits)]
@@ -595,12 +650,15 @@ def trees(w):
 
 def run(w: Workload):
     w.rule = ("data trees = subsets of a 6-file universe (2 sub-directories + root, tasks A/B, one BIDS 'task-' name, one "
-              "file without trailing newline, one CRLF file, one binary file) x selections {all, events only, task A only} x "
+              "file without trailing newline, one CRLF file, one binary file) + %d letter-case trees over a 12-file universe (upper / "
+              "mixed-case directory and file names, 1-3 levels deep, root file%s) x selections {all, events only, task A only} x "
               "both entry points (BackupManager API / the three CLI mains); histories = every sequence of length <=3 over "
               "{modify, delete_file, delete_dir, remodel, restore_all, restore[A], restore[B]} on a fresh copy (quick: all of "
               "length <=2 + a sample of length 3); a history is non-trivial when a restore/remodel has something to undo; crash "
               "points = before and after each os.makedirs / shutil.copy2 / open / json.dump call of create_backup, plus a "
-              "half-written destination inside each copy and inside the dump")
+              "half-written destination inside each copy and inside the dump"
+              % (len(case_trees()), "; names differing only in letter case side by side" if fs_is_case_sensitive() else
+                 "; file system is NOT case-sensitive: case-only collisions skipped"))
     seq_all = [list(s) for n in (1, 2, 3) for s in itertools.product(ACTIONS, repeat=n)]
     if w.quick:
         short = [s for s in seq_all if len(s) <= 2]
@@ -608,12 +666,13 @@ def run(w: Workload):
         seqs_quick = short + w.rng.sample(long3, 50)
     jobs = []
     tl = trees(w)
+    case_tl = case_trees()
     for ti, tree in enumerate(tl):
         for selection in ("all", "events", "taskA"):
             if not select(tree, selection):
                 continue
             for via_cli in (False, True):
-                if w.quick and (ti + (selection == "all") + via_cli) % 2 == 1 and ti > 0:
+                if w.quick and (ti + (selection == "all") + via_cli) % 2 == 1 and ti > 0 and tree not in case_tl[:1] + case_tl[2:3]:
                     continue
                 seqs = seqs_quick if w.quick else seq_all
                 # split into 3 jobs to spread the load
@@ -640,8 +699,10 @@ def run(w: Workload):
             for clause, inp, obs, exp in fails:
                 w.fail(clause, inp, obs, exp)
     w.part("histories after create_backup", cases=counts["history"],
-           bound="%d trees x selections x 2 entry points x sequences of length <=3 over 7 actions%s" %
-                 (len(tl), " (length 3 sampled)" if w.quick else " (all 399)"), exhaustive=not w.quick)
+           bound="%d trees (of them %d with upper-case / mixed-case / case-only-differing directory and file names) x selections x "
+                 "2 entry points x sequences of length <=3 over 7 actions%s" %
+                 (len(tl), len(case_tl), " (length 3 sampled)" if w.quick else " (all 399)"), exhaustive=not w.quick,
+                 case_sensitive_file_system=fs_is_case_sensitive())
     w.part("interruption of create_backup", cases=counts["crash"],
            bound="every extern call of create_backup x {before, after, truncated destination}", exhaustive=True,
            listing_after_crash=dict(sorted(verdicts.items())))
@@ -651,6 +712,8 @@ def run(w: Workload):
         "because another manager created the backup after it was constructed does overwrite - outside the sequential contract)",
         "files of a BIDS 'task-<name>' spelling in a task-filtered restore are only required to be either untouched or restored",
         "file metadata (mtime/permissions); symbolic links; backups_root outside the data root; trees > 6 files",
+        "non-ASCII or Unicode-normalisation variants of directory names; a data root that is itself reached through a differently "
+        "spelled path; case-only collisions on a case-insensitive file system (skipped when the probe says so)",
         "remodel on a tree whose events files are not all in the backup (Dispatcher raises HedFileError by design)",
     ]
     w.assumptions += [
